@@ -68,68 +68,48 @@ def parsePlan (ws : List String) : Option Plan := do
 def fin (w : W) (res : String) : W × String :=
   if w.badHint then ({ w with badHint := false }, "bad-hint " ++ res) else (w, res)
 
+def parseOp (ws : List String) : Option Op :=
+  match ws with
+  | ["kset", n, t, ms, a, b, mem, lf, bz] =>
+    match ms.toNat?, a.toNat?, b.toNat? with
+    | some ms, some a, some b => some (.kset n ⟨t, ms, a, b, splitList "+" mem, lf == "1", bz == "1"⟩)
+    | _, _, _ => none
+  | ["kdel", n] => some (.kdel n)
+  | ["kdrop", n, k] => k.toNat?.map (.kdrop n)
+  | ["add", id, t, ms, a, b, mem] =>
+    match ms.toNat?, a.toNat?, b.toNat? with
+    | some ms, some a, some b => some (.add id t ms a b (splitList "+" mem))
+    | _, _, _ => none
+  | ["rm", id] => some (.rm id)
+  | ["addm", id, mem] => some (.addm id (splitList "+" mem))
+  | ["delm", id, mem] => some (.delm id (splitList "+" mem))
+  | ["filter", ns] => some (.filter (if ns == "nil" then none else some (splitList "," ns)))
+  | ["qresync"] => some .qresync
+  | ["restart"] => some .restart
+  | "apply" :: rest =>
+    (parsePlan rest).map (fun plan =>
+      .apply plan ((splitList "|" (parseKV "hr=" rest)).map (splitList ",")) (splitList "," (parseKV "hd=" rest)))
+  | "applydel" :: rest =>
+    (parsePlan rest).map (fun plan => .applydel plan (splitList "," (parseKV "hd=" rest)))
+  | _ => none
+
 def step (w : W) (line : String) : W × String :=
   let ws := words line
   match ws with
   | ["new", ps, mp, tp] =>
     ({ cfg := ⟨splitList "," ps, mp, tp⟩, F := {}, K := [] }, "ok")
+  | ["state"] => if w.dead then (w, "dead") else (w, showState w)
   | _ =>
   if w.dead then (w, "dead") else
-  match ws with
-  | ["kset", n, t, ms, a, b, mem, lf, bz] =>
-    match ms.toNat?, a.toNat?, b.toNat? with
-    | some ms, some a, some b =>
-      ({ w with K := w.K.set n ⟨t, ms, a, b, (splitList "+" mem).eraseDups, lf == "1", bz == "1"⟩ }, "ok")
-    | _, _, _ => (w, "bad-op")
-  | ["kdel", n] => ({ w with K := w.K.erase n }, "ok")
-  | ["kdrop", n, k] =>
-    match w.K.get n, k.toNat? with
-    | some ks, some k =>
-      let ms := sortS ks.members.eraseDups
-      if ms.isEmpty then (w, "ok")
-      else ({ w with K := w.K.set n { ks with members := sErase ks.members (ms.getD (k % ms.length) "") } }, "ok")
-    | none, some _ => (w, "ok")
-    | _, none => (w, "bad-op")
-  | ["add", id, t, ms, a, b, mem] =>
-    match ms.toNat?, a.toNat?, b.toNat? with
-    | some ms, some a, some b =>
-      ({ w with F := w.F.addOrReplace w.cfg id ⟨t, ms, a, b, false, false⟩ (splitList "+" mem) }, "ok")
-    | _, _, _ => (w, "bad-op")
-  | ["rm", id] =>
-    match w.F.remove w.cfg id with
-    | some F => ({ w with F := F }, "ok")
-    | none => ({ w with dead := true }, "panic")
-  | ["addm", id, mem] =>
-    match w.F.addMembers w.cfg id (splitList "+" mem) with
-    | some F => ({ w with F := F }, "ok")
-    | none => ({ w with dead := true }, "panic")
-  | ["delm", id, mem] =>
-    match w.F.removeMembers w.cfg id (splitList "+" mem) with
-    | some F => ({ w with F := F }, "ok")
-    | none => ({ w with dead := true }, "panic")
-  | ["filter", ns] =>
-    ({ w with F := w.F.setFilter (if ns == "nil" then none else some (splitList "," ns)) }, "ok")
-  | ["qresync"] => ({ w with F := { w.F with bgReq := true } }, "ok")
-  | ["restart"] => ({ w with F := {}, sleeps := 0 }, "ok")
-  | ["state"] => (w, showState w)
-  | "apply" :: rest =>
-    match parsePlan rest with
-    | none => (w, "bad-op")
-    | some plan =>
-      let hr := (splitList "|" (parseKV "hr=" rest)).map (splitList ",")
-      let hd := splitList "," (parseKV "hd=" rest)
-      let w := { w with plan := plan, hintR := hr, hintD := hd, trace := [] }
-      let (w, ok) := w.applyUpdates
-      if !ok then ({ w with dead := true }, "panic")
-      else fin w ("ok T=" ++ canonTrace w.trace.reverse ++ " " ++ showState w)
-  | "applydel" :: rest =>
-    match parsePlan rest with
-    | none => (w, "bad-op")
-    | some plan =>
-      let hd := splitList "," (parseKV "hd=" rest)
-      let w := { w with plan := plan, hintR := [], hintD := hd, trace := [] }
-      let (w, r) := w.applyDeletions
-      fin w (b01 r ++ " T=" ++ canonTrace w.trace.reverse ++ " " ++ showState w)
-  | _ => (w, "bad-op")
+  match parseOp ws with
+  | none => (w, "bad-op")
+  | some op =>
+    let (w', r) := w.stepOp op
+    if w'.dead then (w', "panic")
+    else
+      match op with
+      | .apply .. => fin w' ("ok T=" ++ canonTrace w'.trace.reverse ++ " " ++ showState w')
+      | .applydel .. => fin w' (b01 r ++ " T=" ++ canonTrace w'.trace.reverse ++ " " ++ showState w')
+      | _ => (w', "ok")
 
 def main : IO Unit := run step { cfg := ⟨[], "", ""⟩, F := {}, K := [] }
